@@ -22,6 +22,7 @@ CLAIMS = {
  "C14": ("theorems: id - P annihilates polynomials, is idempotent and linear for ANY linear fit map P that reproduces sampled polynomials (numpy.polyfit's assumed specification, hypotheses not axioms); normalize: largest magnitude exactly 1, positive factor, idempotent; the model's numpy.interp returns the node value at every node (interp on own coordinates = identity) and the straight line between nodes; left_shift = slice n:; ndalign only rolls and keeps the first trace; tie: exact model for normalize/interp/left_shift/ndalign, per-trace table for the fit, algebraic-law oracles. Partial: polyfit S1/S2 assumed; shift-equivariance on the implementation only (known finding for lags beyond n/2)", "5 C14"),
  "C15": ("theorems: apodize multiplies every element by the window value at its own position along dim (same window for every trace), unknown kinds rejected over the window table REGENERATED from the source, over R: exponential closed form, first point 1 and never increasing for exponential/gaussian/hann/hamming; tie: the same generic Lean formulas evaluated in Float vs dnplab.math.window, apodize correspondence, window oracles", "5 C15"),
  "C16": ("theorems by kernel evaluation over tables REGENERATED from load.py and dnplab.cfg: every format autodetect can return is dispatched (or is mat), recognition by extension / directory content, rejection of everything else over the whole abstract domain (22 ext x dir x 2^6 listings), scale factor of every prefix x unit string, the configured frequency key/unit of every NMR format equals the importer's own Hz convention, sections <-> dispatch; over R: dBm<->W are inverse, container independent; tie: exhaustive autodetect on real paths, every config key through the real code, shipped samples (autodetected = explicit, frequency = nmr_frequency), multi-path load, conversions on all container types", "5 C16"),
+ "C18": ("theorems: popt_labels (per-trace parameter p of the trace at labels r lands at (popt=p, r) under dims popt :: remaining dims with their coordinates, any rank / position; via the bracket theorem), over R: Gaussian area = integral argument, Gaussian and Lorentzian symmetric about x0, the Lorentzian derivative variant is its derivative (HasDerivAt); tie: fit()['popt'] vs the model fed the solver's own outputs, recovery / fitted-curve / label oracle for all eight shipped models, Float evaluation of the lineshape formulas vs dnplab.math.lineshape, numeric area / Voigt limits / derivative oracles. Partial: curve_fit recovery and every wofz (Voigt) clause are oracle-only", "5 C18"),
  "C19": ("theorems about the strict reader of the same layout model: every truncation is refused, trailing bytes are refused unless the format has a trailer, an accepted byte string has exactly the declared size (so a header perturbation that changes the declared total is refused), accepted arrays have the declared shape, filler bytes are irrelevant; tie: fault enumeration (truncation classes, trailing bytes, every single-field extent perturbation) on synthetic files of four formats, the real importer must raise / warn / agree with the intact import label for label. Partial: a lax but correct importer is accepted by the oracle only; three TopSpin findings recorded", "5 C19"),
  "C17": ("theorems about the model of the repaired save_h5: refusal without overwrite leaves the destination untouched, ANY fault (an unstorable value at any position) leaves the destination exactly as it was, success holds the complete tree; pinned truncate-then-write refuted on a witness; tie: fault enumeration over every injection position x previous file x overwrite, outcome classes compared with the model and with the property", "5 C17"),
  "C11": ("theorems: every stamping step appends, pipeline_prefix by induction over any pipeline, input untouched (frame); tie: pipelines on objects with 0-12 pre-existing entries + history oracle", "5 C11"),
